@@ -14,14 +14,14 @@ Proof. intros c r Hne E. destruct (exit0_no_errors c r E) as [_ H]. contradictio
 Print Assumptions C10_failure_visible.
 
 (* exit status 0 implies the postcondition of C01 *)
-Theorem C10_exit0_implies_C01 : forall refuse ds c now U src dst,
+Theorem C10_exit0_implies_C01 : forall refuse ds c now U keep src dst,
   src_wf src -> c_dry_run c = false -> dst [] = None ->
   (forall e, In e src -> se_is_dir e = true -> forall cc s t, dst (se_path e) <> Some (File cc s t)) ->
   (forall e, In e src -> se_is_dir e = false -> dst (se_path e) <> Some Dir) ->
-  exit_status c (run refuse ds c now U src dst) = 0%Z ->
-  forall e, In e src -> post c ds now dst (r_fs (run refuse ds c now U src dst)) e.
+  exit_status c (run refuse ds c now U keep src dst) = 0%Z ->
+  forall e, In e src -> post c ds now dst (r_fs (run refuse ds c now U keep src dst)) e.
 Proof.
-  intros refuse ds c now U src dst Hwf Hdry Hroot Hnf Hnd2 Hex e He.
+  intros refuse ds c now U keep src dst Hwf Hdry Hroot Hnf Hnd2 Hex e He.
   destruct (exit0_no_errors c _ Hex) as [Href Herr]. apply run_post; assumption.
 Qed.
 Print Assumptions C10_exit0_implies_C01.
@@ -39,7 +39,7 @@ Print Assumptions C10_failed_task_changes_nothing.
    under --size-only: planned Skip, exit status 0, wrong kind left in place.  The hypotheses of
    C10_exit0_implies_C01 exclude exactly these two shapes. *)
 Theorem C10_refuted_type_conflict_skip :
-  exists c ds src dst, let r := run (fun _ _ _ => false) ds c 9%Z [] src dst in
+  exists c ds src dst, let r := run (fun _ _ _ => false) ds c 9%Z [] [] src dst in
     exit_status c r = 0%Z /\ (exists e, In e src /\ se_is_dir e = true /\ r_fs r (se_path e) <> Some Dir) .
 Proof.
   exists (mk_cfg false false 50 false false false false 100 100), (fun _ => (0%N, 0%Z)),
@@ -49,7 +49,7 @@ Qed.
 Print Assumptions C10_refuted_type_conflict_skip.
 
 Theorem C10_refuted_dir_stat_skip :
-  exists c ds src dst, let r := run (fun _ _ _ => false) ds c 9%Z [] src dst in
+  exists c ds src dst, let r := run (fun _ _ _ => false) ds c 9%Z [] [] src dst in
     exit_status c r = 0%Z /\ (exists e, In e src /\ se_is_dir e = false /\ r_fs r (se_path e) = Some Dir).
 Proof.
   exists (mk_cfg false false 50 false false true false 100 100), (fun _ => (4096%N, 0%Z)),
@@ -63,6 +63,6 @@ Example C10_type_conflict :
   let c := mk_cfg false false 50 false false false false 100 100 in
   let src := [mk_sentry [1%N] false 5 1000%Z 7 false; mk_sentry [2%N] false 6 1000%Z 8 false] in
   let dst : fs := fun p => if peqb p [1%N] then Some Dir else None in
-  let r := run (fun _ _ _ => false) (fun _ => (0%N, 0%Z)) c 9%Z [[1%N]] src dst in
+  let r := run (fun _ _ _ => false) (fun _ => (0%N, 0%Z)) c 9%Z [[1%N]] [] src dst in
   r_errors r = [([1%N], AUpdate, E_IsDir)] /\ r_fs r [2%N] = Some (File 8 6 1000%Z) /\ exit_status c r = 1%Z.
 Proof. vm_compute. repeat split. Qed.
